@@ -15,9 +15,12 @@ structure Cfg where
   bools : Bool
   ips : Bool
   ns : Bool
-  eager : List Str
   re : Option (Str → Bool)
   enc : Option (Str → Option Str)
+
+/-- line-level configuration: the value options plus the `--redactFieldNames` namespace prefixes -/
+structure LineCfg extends Cfg where
+  eager : List Str
 
 /-- `redactString(s, nonEncryptedValue)` after the fail-closed `fix:`. -/
 def redactString (cfg : Cfg) (s : Str) (ph : Str) : Str :=
